@@ -233,6 +233,39 @@ func runC14Mcrew(c *sim.Ctx, t *testing.T) {
 			svPredict(m, mids, wantSeen, wantEmitted)
 		}
 	}
+	heavy := false
+	if c.Chance(1, 12, "ticker") {
+		// a machine that re-arms a 1 ms timer from the handler of each firing, for more than a
+		// hundred periods (every single cascade is two messages deep)
+		n := 104 + c.Intn(12, "ticks")
+		mid := mids[c.Intn(nm, "tickermid")]
+		var inner map[string]interface{}
+		for k := n; k > 0; k-- {
+			tick := map[string]interface{}{"id": g.id(), "to": mid}
+			if inner != nil {
+				tick["emit"] = map[string]interface{}{mid: []interface{}{inner}}
+			}
+			inner = map[string]interface{}{"id": g.id(), "to": "timers", "makeTimer": map[string]interface{}{"id": g.id(), "in": "1ms", "message": tick}}
+		}
+		plans[0] = append(plans[0], inner)
+		svPredict(inner, mids, wantSeen, wantEmitted)
+		heavy = true
+		c.Count("tickers")
+	}
+	if c.Chance(1, 12, "burst") {
+		// one action that emits more messages at once than any plausible queue holds
+		n := 66 + c.Intn(20, "burstsize")
+		from, to := mids[c.Intn(nm, "burstfrom")], mids[c.Intn(nm, "burstto")]
+		var l []interface{}
+		for k := 0; k < n; k++ {
+			l = append(l, map[string]interface{}{"id": g.id(), "to": to})
+		}
+		m := map[string]interface{}{"id": g.id(), "to": from, "emit": map[string]interface{}{from: l}}
+		plans[0] = append(plans[0], m)
+		svPredict(m, mids, wantSeen, wantEmitted)
+		heavy = true
+		c.Count("bursts")
+	}
 	// the step limit is per-request configuration (re-injected messages inherit it);
 	// a recorder needs two strides per message, so 2 makes every walk end exactly at the limit
 	ctl := &core.Control{Limit: []int{2, 2, 3, 100}[c.Intn(4, "limit")]}
@@ -247,6 +280,9 @@ func runC14Mcrew(c *sim.Ctx, t *testing.T) {
 	leak := sim.Bubble(c, t, func(s *sim.Sched) {
 		s.Horizon = 30 * time.Second
 		s.MaxSteps = 12000
+		if heavy {
+			s.MaxSteps = 120000
+		}
 		ctx, cancel := context.WithCancel(context.Background())
 		svc, err := NewService(ctx, filepath.Join(dir, "specs"), filepath.Join(dir, "crew.db"), "")
 		if err != nil {
